@@ -264,7 +264,8 @@ def view_of(name):
             return View("opaque")
         return View("control", kids=args[1:], p=[cf])
     if b == "state" and args:
-        return View("state", kids=args[1:], s=args[0])
+        # p[1] = 1: the state type is default-constructible only (vt::S2)
+        return View("state", kids=args[1:], s=args[0], p=[1 if args[0] == "vt::S2" else 0])
     if b == "if_apply" and args:
         acts = ia_params(args[1:])
         if acts is None:
